@@ -97,6 +97,7 @@ def run_case(ctx, gd, doms, out, cond, rng):
 
 
 def run_shard(ctx):
+    gg.ALLOW_PREFIXED = False  # a name T_x is a selection node for the transport algorithms
     mon_ctf.install_ctf()
     K = {"quick": 2, "thorough": 3}[ctx.tier]
     mon_ctf.CONFIG.update(K=K)
